@@ -246,3 +246,10 @@ package bt
 //@ func bt.defaultDataFee
 //@   fresh result
 //@   ensures[defdata] (not (nil? result))
+
+// ---- JSON interchange (C16) ----
+//@ func bt.(*nodeOutputJSON).fromOutput
+//@   requires (not (nil? (. out LockingScript))) (<= (. out Satoshis) 2100000000000000)
+//@   ensures[C16.amount_encoded] (=> (= err nil) (spec.coin_close (. o Value) (old (. out Satoshis))))
+//@ func bt.(*nodeOutputJSON).toOutput
+//@   ensures[C16.amount_decoded] (=> (= err nil) (forall ((s Int)) (=> (spec.coin_close (old (. o Value)) s) (= (. result Satoshis) s))))
